@@ -30,6 +30,8 @@ def install_rand_probe():
 
 
 class Sampling(ApiImmut):
+    freeze = True  # the oracle sees the arguments as they were at call entry; arrays / lists rewritten by the call are reported
+    input_prop = P
     def __init__(self):
         ApiImmut.__init__(self, 'quantum_computation.sampling')
 
